@@ -1,0 +1,18 @@
+//go:build verif
+
+package fsutil
+
+import gofs "io/fs"
+
+// VerifAfterWalkEntry, when set, is called by the on-disk walker right after
+// the walk callback for an entry has returned, i.e. before filepath.WalkDir
+// descends into a directory. Verification harnesses use it to steer the
+// schedule between a walker and code that modifies the walked tree. It is
+// compiled in only with the "verif" build tag.
+var VerifAfterWalkEntry func(fullPath string, isDir bool)
+
+func verifAfterWalkEntry(fullPath string, d gofs.DirEntry) {
+	if f := VerifAfterWalkEntry; f != nil && d != nil {
+		f(fullPath, d.IsDir())
+	}
+}
